@@ -15,6 +15,9 @@ HARNESSES = [
          tiers=["thorough"], deadline={"thorough": 600}),
     # concurrent half: 2-3 threads on a multi-threaded allocator, every interleaving at the per-bin mutexes
     dict(name="sbamt", src=["sbamt.c"], variant="sched", wrap=True, deadline={"quick": 150, "thorough": 1500}),
+    # free-running ThreadSanitizer twin of the scenario bodies (DESIGN 4.5): no wrapping, OS scheduler, decides nothing;
+    # discharges VSX's proviso that there is no unsynchronised access between schedule points
+    dict(name="sbamt-tsan", src=["sbamt.c"], variant="tsan", cflags=["-DVSX_FREE"], tiers=["thorough"], deadline={"thorough": 600}),
 ]
 
 EXPLANATION = (
